@@ -117,7 +117,7 @@ def replay_own(run, cache, tv):
             encl(f"so3->{rep}/exp/enclosure/k{k}", M, np.eye(3) + X + X2 / 2, "exp outside its second-order enclosure")
             encl(f"so3->{rep}/logexp/enclosure/k{k}", lg.flatten(), x, "log(exp x) outside its enclosure")
             finite(run, f"so3->{rep}/AD/finite/k{k}", [dM, dlog], tv)
-        Jl, Jli, Jr, Jri, Jlm = call(c05.f_alg(cache, "so3"), x)
+        Jl, Jli, Jr, Jri, Jlm = c05.call_alg(run, cache, "so3", x, tv)
         encl(f"so3/left_jacobian/enclosure/k{k}", Jl, np.eye(3) + X / 2 + X2 / 6, "J_l outside its enclosure")
         encl(f"so3/right_jacobian/enclosure/k{k}", Jr, np.eye(3) - X / 2 + X2 / 6, "J_r outside its enclosure")
         encl(f"so3/left_jacobian_inv/enclosure/k{k}", Jli, np.eye(3) - X / 2 + X2 / 12, "J_l^-1 outside its enclosure")
@@ -148,7 +148,7 @@ def replay_own(run, cache, tv):
                     run.violation(key, what + f" (|f - f2| = {dd:.3e} > {bj:.3e})", {"tv": tv, "xi": xi.tolist()})
                 else:
                     run.err(dd)
-            Jl, Jli, Jr, Jri, Jlm = call(c05.f_alg(cache, kind), xi)
+            Jl, Jli, Jr, Jri, Jlm = c05.call_alg(run, cache, kind, xi, tv)
             I_ = np.eye(d_); a2 = ad @ ad
             enclj(f"{kind}/left_jacobian/enclosure/k{k}", Jl, I_ + ad / 2 + a2 / 6, "J_l outside its second-order enclosure")
             enclj(f"{kind}/right_jacobian/enclosure/k{k}", Jr, I_ - ad / 2 + a2 / 6, "J_r outside its second-order enclosure")
